@@ -245,12 +245,11 @@ static bool matches(const Form& f, const Dec& d, const Given& g, bool x64) {
 // ---- symbolic operands for a form
 static inline uint32_t pick(uint32_t mask) { return nondet_u8() & mask; }
 
-// evex_split: 0 = whole group; 1 = only operands for which the encoder does not need EVEX; 2 = only those that need it
+// Symbolic operands for a group of forms (all forms of a group have the same operand kinds). Fills `o` and `g`.
 template<bool X64>
-static void run_forms(const Form* forms, uint32_t nforms, int evex_split = 0) {
+static void build_operands(const Form* forms, uint32_t nforms, int evex_split, Operand_* o, Given& g) {
   const Form& f0 = forms[0];
-  x86::Assembler* a = venv::make_asm(X64, true);
-  Operand_ o[4]; Given g; memset(&g, 0, sizeof(g)); g.mem_index = -1;
+  memset(&g, 0, sizeof(g)); g.mem_index = -1;
   for (int i = 0; i < 4; i++) o[i].reset();
   bool evex = false; uint8_t kflags = 0;
   for (uint32_t i = 0; i < nforms; i++) { evex |= forms[i].enc == E_EVEX; kflags |= forms[i].flags; }
@@ -311,14 +310,24 @@ static void run_forms(const Form* forms, uint32_t nforms, int evex_split = 0) {
   }
   if (kflags & F_K) {
     g.k = pick(7);
-    if (g.k) a->_extra_reg.init(x86::k(g.k));
-    if ((kflags & F_Z) && g.k && nondet_bool()) { g.z = true; a->_inst_options |= InstOptions::kX86_ZMask; }
+    if ((kflags & F_Z) && g.k && nondet_bool()) { g.z = true; }
   }
   if (evex_split) {
     bool needs_evex = g.k != 0;
     for (uint32_t k = 0; k < f0.nops; k++) { if (f0.ops[k].kind == K_ZMM) needs_evex = true; if (is_vec(f0.ops[k].kind) && g.reg_enc[k] >= 16) needs_evex = true; }
     V_ASSUME(needs_evex == (evex_split == 2));
   }
+}
+
+// evex_split: 0 = whole group; 1 = only operands for which the encoder does not need EVEX; 2 = only those that need it
+template<bool X64>
+static void run_forms(const Form* forms, uint32_t nforms, int evex_split = 0) {
+  const Form& f0 = forms[0];
+  Operand_ o[4]; Given g;
+  build_operands<X64>(forms, nforms, evex_split, o, g);
+  x86::Assembler* a = venv::make_asm(X64, true);
+  if (g.k) a->_extra_reg.init(x86::k(g.k));
+  if (g.z) a->_inst_options |= InstOptions::kX86_ZMask;
   Operand_ ext[3]; ext[0] = o[3]; ext[1].reset(); ext[2].reset();
   Error e = a->x86::Assembler::_emit(f0.inst, o[0], o[1], o[2], ext);
   size_t n = venv::emitted();
@@ -337,4 +346,43 @@ static void run_forms(const Form* forms, uint32_t nforms, int evex_split = 0) {
     V_ASSERT(n == 0, "refused form appends nothing");
   }
 }
+
+// C13: strict validation on vs off - same verdict, same bytes - for every operand assignment of the group.
+template<bool X64>
+static void run_agree(const Form* forms, uint32_t nforms) {
+  const Form& f0 = forms[0];
+  Operand_ o[4]; Given g;
+  build_operands<X64>(forms, nforms, 0, o, g);
+  Operand_ ext[3]; ext[0] = o[3]; ext[1].reset(); ext[2].reset();
+  uint8_t b1[16]; Error e1, e2; size_t n1, n2;
+  {
+    x86::Assembler* a = venv::make_asm(X64, true);
+    if (g.k) a->_extra_reg.init(x86::k(g.k));
+    if (g.z) a->_inst_options |= InstOptions::kX86_ZMask;
+    e1 = a->x86::Assembler::_emit(f0.inst, o[0], o[1], o[2], ext); n1 = venv::emitted();
+    memcpy(b1, venv::buf, 16);
+  }
+  {
+    x86::Assembler* a = venv::make_asm(X64, false);
+    if (g.k) a->_extra_reg.init(x86::k(g.k));
+    if (g.z) a->_inst_options |= InstOptions::kX86_ZMask;
+    e2 = a->x86::Assembler::_emit(f0.inst, o[0], o[1], o[2], ext); n2 = venv::emitted();
+  }
+  verif_observe(uint32_t(e1)); verif_observe(uint32_t(e2)); verif_observe(n1); verif_observe(n2);
+  V_ASSERT((e1 == Error::kOk) == (e2 == Error::kOk), "strict validation and the encoder agree on acceptance");
+  if (e1 == Error::kOk && e2 == Error::kOk) {
+    V_ASSERT(n1 == n2, "validation does not change the length");
+    bool same = true;
+    for (uint32_t i = 0; i < 15; i++) if (i < n1) same &= b1[i] == venv::buf[i];
+    V_ASSERT(same, "validation does not change the bytes");
+    V_WITNESS("both-accept");
+  }
+}
 }  // namespace vf
+
+// C01 compiles the generated harnesses as encoding checks, C13 (VF_AGREE) as validation on/off agreement checks.
+#ifdef VF_AGREE
+#define VF_RUN(X64, TAB, CNT) vf::run_agree<X64>(TAB, CNT)
+#else
+#define VF_RUN(X64, TAB, CNT) vf::run_forms<X64>(TAB, CNT)
+#endif
